@@ -85,6 +85,19 @@ func isReservedHeader(h []byte) bool {
 	return binary.LittleEndian.Uint32(h[4:8]) == 0
 }
 
+// segRW hands over at most seg bytes per Read.
+type segRW struct {
+	io.ReadWriter
+	seg int
+}
+
+func (s *segRW) Read(p []byte) (int, error) {
+	if len(p) > s.seg {
+		p = p[:s.seg]
+	}
+	return s.ReadWriter.Read(p)
+}
+
 // transfer writes data in the given chunk sizes through w and reads it back from r with read chunk rc.
 func transfer(w io.Writer, r io.Reader, link *bytes.Buffer, sizes []any, rc int, rng *rand.Rand) bool {
 	var sent []byte
@@ -139,7 +152,11 @@ func init() {
 		if kind == "wrongsecret" {
 			asecret = rbytes(rng, 16)
 		}
-		srv, meta, err := obfuscated2.Accept(&wire{in: c2s, out: s2c}, asecret)
+		var under io.ReadWriter = &wire{in: c2s, out: s2c}
+		if h := tr.Int(in["hseg"]); h > 0 {
+			under = &segRW{ReadWriter: under, seg: h}
+		}
+		srv, meta, err := obfuscated2.Accept(under, asecret)
 		if err != nil {
 			return tr.M{"accept_ok": false, "err": err.Error()}
 		}
